@@ -311,7 +311,10 @@ def callInputAttr (st : CallInput × Bool) (attr : KV) : (CallInput × Bool) × 
   match attr.id with
   | "description" => let s := parseString attr.val true; (({ st.1 with description := some s.1 }, st.2), s.2)
   | "required" => let b := parseBool attr.val; (({ st.1 with required := b.1 }, st.2), b.2)
-  | "default" => let s := parseString attr.val true; (({ st.1 with dflt := some s.1 }, st.2), s.2)
+  | "default" =>
+    -- a null node sets no default value
+    if attr.val.isNull then (st, [])
+    else let s := parseString attr.val true; (({ st.1 with dflt := some s.1 }, st.2), s.2)
   | "type" =>
     match attr.val.value with
     | "boolean" => (({ st.1 with type := .boolean }, true), [])
